@@ -550,3 +550,77 @@ def C16(run):
         "trace_lines_validated_by_TLC": res["lines"], "exhaustive": True},
         ["Utf8.Count (RFC 3629 ABNF) is the oracle; MC_Utf8 checks it against an independent numeric definition on every sequence of class representatives and proves the class partition exact",
          "for a class sequence the harness executes every concrete byte sequence and logs whether all agreed with the representative; TLC judges the representative and that flag"])
+
+
+# ---------------------------------------------------------------------------------------------- C04 / C12
+ITEMS_SRC = ["vh.c", "h_tree.c", "h_gen.c", "h_items.c"]
+
+
+def _items_check(run, judge, cfgs, plans, what):
+    mcs = [tlc_mc(run, "MC_Items", c, workers=NCPU, timeout=3000) for c in cfgs]
+    lib = build_lib(run, "dbg")
+    exe = build_harness(run, lib, "h_items", ITEMS_SRC)
+    out = run.path("items.ndjson")
+    open(out, "w").close()
+    for args in plans:
+        part = run.path("items-part.ndjson")
+        _record_simple(run, exe, args, part, what)
+        with open(out, "ab") as fo, open(part, "rb") as fi:
+            fo.write(fi.read())
+    n = count_lines(out)
+    res = tracecheck(run, "Trace_Items", out, cfg="Trace_Items_" + judge, env={"VERIF_JUDGE": judge})
+    def sig(ln, r):
+        ops = [json.loads(x) for x in r["exec"][:r["at"] + 1] if '"e":"op"' in x]
+        return "history " + ";".join("%s%s@%s" % (o["name"], [a for a in o["a"] if a], o["idx"]) for o in ops[-12:])
+    _report_rejects(run, res, what, sig)
+    hist, ops, kinds = 0, 0, set()
+    cur = []
+    with open(out) as f:
+        for l in f:
+            if l.startswith('{"e":"Reset"'):
+                hist += 1
+                if len(cur) > 2:
+                    kinds.add(tuple(cur))
+                cur = []
+            elif l.startswith('{"e":"op"'):
+                ops += 1
+                m = re.search(r'"name":"(\w+)".*?"ret":(\d+)', l)
+                cur.append((m.group(1), m.group(2) != "0"))
+            elif l.startswith('{"e":"grow"'):
+                kinds.add(l[:40])
+    if len(cur) > 2:
+        kinds.add(tuple(cur))
+    return mcs, res, out, n, hist, ops, len(kinds)
+
+
+def C04(run):
+    q = run.quick()
+    cfgs = ["MC_Items_arr", "MC_Items_map", "MC_Items_tag", "MC_Items_chunk", "MC_Items_copysmall"] + ([] if q else ["MC_Items_copy"])
+    mcs, res, out, n, hist, ops, kinds = _items_check(run, "C04", cfgs, [["hist", "700" if q else "20000", "60" if q else "200", "inrange"]], "ownership history")
+    write_evidence(run, "model_checking", {
+        "states": sum(m["distinct"] for m in mcs), "transitions": sum(m["generated"] for m in mcs),
+        "traces_validated_against_impl": hist - len(res["rejects"]),
+        "samples": _sample_lines(out, 2, lambda l: '"MovePush"' in l or '"TagSet"' in l),
+        "evaluations": ops, "distinct_nontrivial": kinds, "histories": hist,
+        "rule": "one case = one history of public API calls following the documented ownership rules over a table of up to 24 client references (new/build of every type, push, move-into-container, set, replace, get, map add, add chunk, tag set/get/build, copy, load, serialize, incref, decref, intermediate decref; shared sub-items; then the client drops every reference); after every call refcounts, contents and the client's reference bag are compared with the specification state by TLC; distinct = distinct sequence of (operation, success); non-trivial = more than two calls",
+        "trace_lines_validated_by_TLC": res["lines"], "exhaustive": False},
+        ["CborItems (reference-counted object graph with the ghost client bag) is checked exhaustively by TLC on pools of 3-4 items per operation family: RcExact, EdgesLive, FreedOnce, NoLeak hold for every rule-following history within the bound",
+         "Trace_Items re-checks every precondition (ownership rules, acyclicity), so a driver mistake is an illegal trace (exit 2), never a verdict",
+         "use after release is observed by ASan; the allocator registry reports foreign or repeated frees"])
+
+
+def C12(run):
+    q = run.quick()
+    cfgs = ["MC_Items_arr", "MC_Items_map", "MC_Items_chunk"]
+    mcs, res, out, n, hist, ops, kinds = _items_check(run, "C12", cfgs,
+        [["hist", "500" if q else "12000", "60" if q else "150", "containers"], ["grow", "4000" if q else "60000", "0"]], "container history")
+    write_evidence(run, "model_checking", {
+        "states": sum(m["distinct"] for m in mcs), "transitions": sum(m["generated"] for m in mcs),
+        "traces_validated_against_impl": hist - len(res["rejects"]),
+        "samples": _sample_lines(out, 1, lambda l: '"Set"' in l) + _sample_lines(out, 1, lambda l: '"grow"' in l and '"n":4' in l),
+        "evaluations": ops, "distinct_nontrivial": kinds, "histories": hist,
+        "rule": "one case = one history of push, set, replace, get (indexes 0..size+2), map add and add chunk on definite (capacity 0..8) and indefinite arrays, maps and chunked strings, compared step by step with the abstract sequence by TLC; plus n insertions (n = 0..17, a random n, and %s) into each indefinite kind with capacity logged at every change and reallocations counted by the allocator; distinct = distinct sequence of (operation, success)" % ("4000" if q else "60000"),
+        "trace_lines_validated_by_TLC": res["lines"], "exhaustive": False},
+        ["MC_Items (arr, map, chunk families) checks SizeWithinCap, refusal at capacity, out-of-range refusal and logarithmic growth exhaustively on the small pool",
+         "in conformance the capacity after a growth step is read from the real container: any growth that keeps size <= capacity, never shrinks and stays within the reallocation bound is accepted",
+         "out-of-bounds accesses are observed by ASan"])
